@@ -65,6 +65,18 @@ CLAIMED['C03'] = ('other',
     'information-flow (taint) rule on the raw parameter + normal-form comparison of compact() functions',
     'DESIGN.md section C03')
 
+CLAIMED['C13'] = ('other',
+    'Effect and ownership analysis of every function in stdnum/ and the WSGI script: each write to module-level state must be a '
+    'transparent single-store memo (guarded by `K not in C`, read back only as C[K] after the guard, value depending on the key '
+    'variables alone, stored object complete before it is published and untouched afterwards, one owner function per container); '
+    'no function hands out a module-level or registry-owned container; no mutable defaults, instance state outside __init__, '
+    'container-returning function caches or environment reads. Histories and interleavings are not enumerated: the discipline makes '
+    'every call a function of its arguments and the date, which is the statement for all sequences and schedules at once.',
+    'Trusted: CPython ast; atomic dict get/set under the GIL; importing a module twice yields the same object. Not covered: '
+    'interpreter-level faults. The registry no-alias clause is the decision table of numdb._find (shared with C10).',
+    'effect / ownership / escape analysis over the ASTs with a memo-protocol typestate per module-level container',
+    'DESIGN.md section C13')
+
 NOT_APPLICABLE = {
 }
 
